@@ -41,7 +41,7 @@ def teardown(ctx):
 
 def plan(tier):
     m = 3 if tier == 'quick' else 80
-    return [('analysis', 1400 * m), ('short', 150 * m), ('long', 40 * m), ('derived', 150 * m), ('siblings', 60 * m)]
+    return [('analysis', 1400 * m), ('short', 150 * m), ('long', 40 * m), ('derived', 150 * m), ('siblings', 60 * m), ('unequal', 120 * m)]
 
 
 class saved_class_state:
@@ -181,9 +181,59 @@ def case_siblings(ctx, rng):
     ctx.cell('siblings', 'reps%d' % len(layout))
 
 
+def case_unequal(ctx, rng):
+    """Replicas of very unequal length with drifting / random-walk signals (long windows): the short replicas stop contributing
+    pairs at lags below the window and below w_max = max(replica extent) // 2, so numerator and pair count of Gamma(t) lose
+    replicas one after the other as t grows.  (A window that reaches w_max itself is only possible for chains of 5-7
+    configurations - g_W turns negative at once for large S and long before w_max for small S - and is produced by the kind
+    'short'.)"""
+    pe = PE
+    e = str(rng.choice(gen.ENS_POOL))
+    lengths = [[int(rng.integers(20, 61))], [int(rng.integers(30, 61)), int(rng.integers(5, 12))],
+               [int(rng.integers(40, 81)), int(rng.integers(8, 16)), int(rng.integers(5, 8))]][int(rng.integers(0, 3))]
+    if len(lengths) == 1 and rng.random() < 0.3:
+        reps = [None]
+    else:
+        reps = sorted(rng.choice(gen.REP_POOL, size=len(lengths), replace=False).tolist())
+    g = int(rng.choice([1, 1, 2, 3]))
+    order = rng.permutation(len(lengths))
+    tab = {}
+    for r, j in zip(reps, order):
+        n = lengths[int(j)]
+        name = e if r is None else '%s|%s' % (e, r)
+        start = int(rng.integers(1, 50))
+        if rng.random() < 0.6:
+            idl = list(range(start, start + n * g, g))
+        else:
+            idl = list(gen.rand_idl(rng, n, 'gapped', start=start, step=g, as_type='list'))
+        n = len(idl)
+        style = int(rng.integers(0, 3))
+        if style == 0:
+            x = np.cumsum(rng.normal(size=n))                            # random walk
+        elif style == 1:
+            x = np.linspace(-1.0, 1.0, n) * float(rng.uniform(1, 5)) + 0.05 * rng.normal(size=n)     # drift
+        else:
+            x = np.sin(np.arange(n) * np.pi / max(n, 8)) * 3.0 + 0.05 * rng.normal(size=n)           # half a period
+        tab[name] = {int(c): float(v) for c, v in zip(idl, x)}
+    o = gen.table_to_obs(pe, tab, {n_: str(rng.choice(['list', 'ndarray', 'native'])) for n_ in tab})
+    kw = dict(S=float(rng.choice([1, 2, 3, 6])), fft=bool(rng.integers(0, 2)))
+    if rng.random() < 0.25:
+        kw['tau_exp'] = float(rng.choice([1.5, 5, 20]))
+        kw['N_sigma'] = float(rng.choice([0, 1, 2]))
+    try:
+        o.gamma_method(**kw)
+    except ValueError as ex:
+        if 'at least 8 samples' not in str(ex):
+            raise
+    ctx.cell('unequal_replicas', 'reps%d' % len(lengths), 'fft' if kw['fft'] else 'direct', 'tail' if 'tau_exp' in kw else 'window')
+    ctx.sample({'kind': 'unequal', 'lengths': {n_: len(d) for n_, d in tab.items()}, 'params': kw, 'windows': getattr(o, 'e_windowsize', None)})
+
+
 def run_case(ctx, kind, idx, rng):
     if kind == 'siblings':
         return case_siblings(ctx, rng)
+    if kind == 'unequal':
+        return case_unequal(ctx, rng)
     nmax = 60 if ctx.tier == 'quick' else int(rng.choice([60, 150, 500]))
     if kind == 'analysis':
         o = make_obs(rng, 5, nmax)
